@@ -1676,6 +1676,31 @@ def b_nc_blank(tier, rnd):
             "cases": [(N.__new__(N), None), (N.__new__(N),)] + [(N.__new__(N), n) for n in all_names(2)]}
 
 
+@battery("track_integrity")
+def b_track_integrity(tier, rnd):
+    from mingus.containers.track import Track
+    from mingus.containers.bar import Bar
+    cases = []
+    for fills in ([], [4], [2], [4, 4], [4, 2], [2, 4], [4, 4, 4], [4, 3, 4], [4, 4, 0], [0, 4, 4], [3], [4, 4, 4, 1]):
+        t = Track()
+        for k in fills:
+            b = Bar("C", (4, 4))
+            for _ in range(k):
+                b.place_notes("C", 4)
+            t.add_bar(b)
+        cases.append((t,))
+    for meter in ((0, 0), (3, 4), (6, 8)):
+        t = Track()
+        for k in (3, 3, 1):
+            b = Bar("C", meter)
+            for _ in range(k):
+                b.place_notes("E", 4)
+            t.add_bar(b)
+        cases.append((t,))
+    return {"rule": "15 tracks of 0..4 bars in 4/4, free time, 3/4, 6/8: full, partly filled and empty bars in every position",
+            "cases": cases}
+
+
 @battery("comp_strings")
 def b_comp_strings(tier, rnd):
     from mingus.containers.composition import Composition
